@@ -35,7 +35,7 @@ import (
 
 // tstream: one model instance with an open subscription.
 type tstream struct {
-	write  func(i int) error                                     // the i-th write of the family's domain
+	write  func(i int) error                                        // the i-th write of the family's domain
 	get    func(opts ...resource.ReadOption) (proto.Message, error) // masked current value
 	pull   func(ctx context.Context, opts ...resource.ReadOption) <-chan proto.Message
 	marker func() error // a write visible under every mask of the family, used nowhere else
@@ -46,7 +46,7 @@ type tfamily struct {
 	sample proto.Message
 	masks  [][]string // nil: no mask
 	nWrite int
-	warm   [2]int                     // two writes that differ visibly under every mask
+	warm   [2]int                        // two writes that differ visibly under every mask
 	equiv  func(x, y proto.Message) bool // the oracle E
 	open   func(initial []int) (*tstream, error)
 }
